@@ -32,7 +32,7 @@ Init0 == [tid |-> "none", line |-> 0, maxsize |-> 0, loading |-> 0, failing |-> 
           cur |-> [k \in KeyDom |-> NoCur], sec |-> [k \in KeyDom |-> NoSec], en |-> <<>>, call |-> NoCall,
           gen |-> 0, secGot |-> <<0, 0, 0>>, secDelByGet |-> FALSE, loaded |-> FALSE, loadv |-> 0, loadttl |-> 0,
           pendDemote |-> {}, lastfail |-> FALSE, final |-> FALSE, lastdl |-> 0, failedEnt |-> {}, taint |-> [k \in KeyDom |-> -1], kflost |-> {}, kflostD |-> {}, copied |-> <<>>,
-          closed |-> FALSE, viol |-> {}, traces |-> 0, gets |-> 0, demotions |-> 0, kfail |-> {}, owedDel |-> {}]
+          closed |-> FALSE, viol |-> {}, traces |-> 0, gets |-> 0, demotions |-> 0, kfail |-> {}, owedDel |-> {}, lastEnt |-> 0]
 
 V(s, prop, kind) == IF Cardinality({x \in s.viol : x[1] = prop /\ x[4] = kind}) >= 25 THEN s ELSE [s EXCEPT !.viol = @ \cup {<<prop, s.tid, s.line, kind>>}]
 Vif(s, c, prop, kind) == IF c THEN V(s, prop, kind) ELSE s
@@ -57,7 +57,9 @@ DoRet(s, e) ==
     [] e.op = "close" -> [s EXCEPT !.closed = TRUE]
     [] e.op = "set" ->
          IF e.ok = 1
-         THEN [s EXCEPT !.gen = s.gen + 1, !.taint = [s.taint EXCEPT ![k] = -1], !.kflost = @ \ {k}, !.kflostD = @ \ {k}, !.kfail = @ \ {k},
+         THEN [s EXCEPT !.gen = s.gen + 1, !.taint = [s.taint EXCEPT ![k] = -1], !.kflost = @ \ {k}, !.kflostD = @ \ {k},
+                        \* (a Set that went into an entry the secondary store has refused shares that entry's fate)
+                        !.kfail = IF s.lastEnt \in s.failedEnt THEN @ ELSE @ \ {k},
                         !.cur = [s.cur EXCEPT ![k] = [has |-> TRUE, v |-> c.v, deleted |-> FALSE, gen |-> s.gen + 1,
                                                        dl |-> s.lastdl]]]     \* the deadline the store computed (C03 checks that computation)
          ELSE s
@@ -110,7 +112,7 @@ DoSetEv(s, e) ==
   LET byLoader == s.call.op = "hget" /\ s.loaded
       \* created by promotion of a secondary copy: carries the from-secondary flag for the rest of its life
       prom == IF e.ev = "setnew" THEN (s.call.op = "hget" /\ ~s.loaded /\ s.secGot[1] = 1) ELSE En(s, e.e).promoted
-  IN [s EXCEPT !.en = Put(s.en, e.e, [k |-> e.k, v |-> e.v, dl |-> e.dl, loader |-> byLoader, promoted |-> prom]), !.lastdl = e.dl]
+  IN [s EXCEPT !.en = Put(s.en, e.e, [k |-> e.k, v |-> e.v, dl |-> e.dl, loader |-> byLoader, promoted |-> prom]), !.lastdl = e.dl, !.lastEnt = e.e]
 
 \* eviction hands the entry to the workers
 DoHandoff(s, e) == [s EXCEPT !.pendDemote = @ \cup {e.e}]
@@ -125,7 +127,11 @@ DoSecDel(s, e) ==
             s1 == Vif(s, nocopy, "C15", IF updated THEN "slot_removed_by_worker_after_entry_was_updated_since_its_copy"
                                        ELSE "slot_removed_by_worker_without_copy_in_secondary")
         IN [s1 EXCEPT !.pendDemote = @ \ {e.e}, !.demotions = s.demotions + 1,
-                      !.kflostD = IF updated THEN @ \cup {o.k} ELSE @]
+                      !.kflostD = IF updated THEN @ \cup {o.k} ELSE @,
+                      \* the slot goes because the secondary store refused this entry: whatever value a Set has
+                      \* put into the doomed entry since is lost with it - a loss the failing store explains (C15
+                      \* claims demotion for a working store only)
+                      !.kfail = IF e.e \in s.failedEnt THEN @ \cup {o.k} ELSE @]
   ELSE [s EXCEPT !.pendDemote = @ \ {e.e}]
 
 \* direct removal by eviction (no hand-off): the tier must already hold the identical value
